@@ -41,9 +41,28 @@ class Plugin(HistPlugin):
                             'after': rng.random() < 0.5, 'arg': {'$set': {'v': first}}})
         return {'ops': ops, 'pre5': False}
 
+    def gen_focus_claim(self, rng):
+        """"claim a job": find_one_and_update / find_one_and_replace whose change makes the target
+        stop matching the filter, BEFORE and AFTER images, with sort and projection"""
+        n = rng.choice([2, 3, 4])
+        docs = [{'_id': k + 1, 'state': rng.choice(['q', 'q', 'r']), 'prio': rng.choice([1, 2, 2, 3]), 'runs': 0}
+                for k in range(n)]
+        ops = [{'op': 'clock', 't': 0}, {'op': 'insert_many', 'docs': docs, 'ordered': True}]
+        for _ in range(rng.choice([1, 2, 3])):
+            kind = rng.choice(['update', 'update', 'replace'])
+            arg = {'$set': {'state': 'r'}, '$inc': {'runs': 1}} if kind == 'update' else {'state': 'r', 'runs': 9}
+            ops.append({'op': 'fam', 'kind': kind, 'filter': rng.choice([{'state': 'q'}, {'state': 'q', 'prio': {'$gte': 2}}]),
+                        'sort': rng.choice([[], [['prio', -1]], [['prio', 1], ['_id', -1]]]),
+                        'proj': rng.choice([None, None, {'state': 1}, {'_id': 0, 'runs': 1}]),
+                        'upsert': False, 'after': rng.random() < 0.7, 'arg': arg})
+        return {'ops': ops, 'pre5': False}
+
     def gen_case(self, rng, i, tier):
-        if rng.random() < 0.15:
+        r = rng.random()
+        if r < 0.15:
             return self.gen_focus_noop(rng)
+        if r < 0.27:
+            return self.gen_focus_claim(rng)
         gen.TINY[0] = rng.random() < 0.7
         try:
             return HistPlugin.gen_case(self, rng, i, tier)
